@@ -640,6 +640,29 @@ func genMixed(spec string) interface{} {
 		classes = strings.TrimSuffix(classes, ":num")
 	}
 	numKeys := []string{"9", "10", "1a", "2", "80", "4a", "443", "10x"}
+	switch {
+	case strings.HasSuffix(classes, ":pre"):
+		// equally long keys with a long common prefix: orderings that look at a
+		// prefix, a hash of a prefix or the length only cannot tell them apart
+		num = true
+		classes = strings.TrimSuffix(classes, ":pre")
+		numKeys = []string{"instance-07", "instance-21", "instance-03", "instance-15", "instance-11", "instance-02", "instance-30", "instance-09"}
+	case strings.HasSuffix(classes, ":case"):
+		// keys that collide under case folding
+		num = true
+		classes = strings.TrimSuffix(classes, ":case")
+		numKeys = []string{"env", "ENV", "Env", "eNv", "name", "NAME", "Name", "k"}
+	case strings.HasSuffix(classes, ":big"):
+		// more entries than any small-size fast path: the class string is
+		// repeated five times over prefixed keys
+		num = true
+		classes = strings.TrimSuffix(classes, ":big")
+		numKeys = nil
+		for i := 0; i < 5*len(classes); i++ {
+			numKeys = append(numKeys, fmt.Sprintf("instance-%02d", (i*7)%97))
+		}
+		classes = strings.Repeat(classes, 5)
+	}
 	m := map[string]interface{}{}
 	for j, c := range classes {
 		k := fmt.Sprintf("k%d", j)
